@@ -16,7 +16,8 @@ Inductive decomp :=
 | DP2 (w : option (tensor Z)) (fs ps : list (tensor Z)).
 
 Inductive view :=
-| VValidate | VTensor | VUnfolded (m : nat) | VVec | VNorm | VMatrix | VSlice (i : nat) | VSlices.
+| VValidate | VTensor | VUnfolded (m : nat) | VVec | VNorm | VMatrix | VSlice (i : nat) | VSlices
+| VEin (v : view).   (* view v taken under the einsum tenalg backend, for the family whose einsum route is modelled separately (TT-matrix) *)
 
 Inductive out :=
 | OT (t : tensor Z)                      (* an array *)
@@ -64,6 +65,12 @@ Definition run (d : decomp) (v : view) : out :=
   | DTtm cs, VMatrix => rt (ttm_to_matrix Zops cs)
   | DTtm cs, VUnfolded m => rt (ttm_to_unfolded Zops cs m)
   | DTtm cs, VVec => rt (ttm_to_vec Zops cs)
+  | DTtm cs, VEin VValidate => rsr (validate_ttm cs)
+  | DTtm cs, VEin VTensor => rt (ttm_to_tensor_einsum Zops cs)
+  | DTtm cs, VEin VMatrix => rt (ttm_to_matrix_einsum Zops cs)
+  | DTtm cs, VEin (VUnfolded m) => rt (ttm_to_unfolded_einsum Zops cs m)
+  | DTtm cs, VEin VVec => rt (ttm_to_vec_einsum Zops cs)
+  | DTtm cs, VEin VNorm => rnorm (ttm_to_tensor_einsum Zops cs)
   | DP2 w fs ps, VValidate => match validate_parafac2 Zops w fs ps with Ok (s, r) => OSS s r | Err => OErr end
   | DP2 w fs ps, VSlice i => rt (parafac2_to_slice Zops w fs ps i)
   | DP2 w fs ps, VSlices => match parafac2_to_slices Zops w fs ps with Ok l => OL l | Err => OErr end
